@@ -17,7 +17,7 @@ Not decided: byte-exact round trip over all (write size, read buffer, chunking) 
 """
 import re
 from paths import refine_cuts
-from common import short, slice_locals
+from common import short, slice_locals, ref_local
 import guards
 import refsrc
 import k11
@@ -78,34 +78,11 @@ def r02_1(ctx, fx):
         ctx.ob("R02.1", "NoiseContext::%s/forwards-to-snow-unmodified" % nm, ok, site=fn.site(fn.entry), cfg=fx.cfg, detail=str([c.name for c in cs]))
 
 
-def _ref_target(fn, o, depth=0):
-    """local L such that operand o is `&L` / `&mut L` (through reborrows of once-assigned temporaries), else None"""
-    p = o.get("m") or o.get("c")
-    if p is None or depth > 6:
-        return None
-    if len(p) == 1 and not fn.locals[p[0]].startswith("&"):
-        return p[0]
-    d = fn.single_def(p[0])
-    if d is None or d[1] != "assign":
-        return None
-    rv = d[2]["rv"]
-    if rv["r"] == "ref":
-        q = rv["p"]
-        if len(q) == 1:
-            return q[0] if not fn.locals[q[0]].startswith("&") else _ref_target(fn, {"c": [q[0]]}, depth + 1)
-        if len(q) == 2 and q[1] == "*":
-            return _ref_target(fn, {"c": [q[0]]}, depth + 1)
-        return None
-    if rv["r"] in ("use", "cast"):
-        return _ref_target(fn, rv["o"], depth + 1)
-    return None
-
-
 def _vec_local(fn, o):
     """the Vec<u8> local that operand o (a slice obtained by indexing / deref) views, else None"""
     cur = o
     for _ in range(6):
-        t = _ref_target(fn, cur)
+        t = ref_local(fn, cur)
         if t is not None and fn.locals[t].startswith("std::vec::Vec<u8"):
             return t
         pr = fn.producer(cur)
@@ -187,7 +164,7 @@ def r02_2(ctx, fx):
                 p = a.get("m") or a.get("c")
                 if p is None or "&mut" not in fn.locals[p[0]][:5]:
                     continue
-                if _vec_local(fn, a) == v or _ref_target(fn, a) == v:
+                if _vec_local(fn, a) == v or ref_local(fn, a) == v:
                     if c.matches(r"NoiseContext::read_message$") and i == 2:
                         continue
                     if c.matches(r"DerefMut>?::deref_mut$|IndexMut(<.*>)?>?::index_mut$"):
@@ -224,7 +201,7 @@ def r02_2(ctx, fx):
         if not someagg:
             continue
         vl = (someagg[0]["rv"]["ops"][0].get("m") or someagg[0]["rv"]["ops"][0].get("c") or [None])[0]
-        fillers = [rm for rm in rms if _vec_local(fn, rm.args[2]) == vl or _ref_target(fn, rm.args[2]) == vl]
+        fillers = [rm for rm in rms if _vec_local(fn, rm.args[2]) == vl or ref_local(fn, rm.args[2]) == vl]
         if fillers:
             rm = fillers[0]
             cuts = refine_cuts(fn, rm, ["Err", "?"])
